@@ -27,7 +27,9 @@ TECHNIQUE = ("Coq proofs over allocation-aware models with an arbitrary allocato
              "C19/C07/C06/C11 developments) + exhaustive single-fault enumeration on the ASan build (every allocation index "
              "of every workload), differential against the extracted models for the modelled operations")
 RULE = ("workloads = fixed boundary corpus (objects crossing the table growth at 12/23 members, arrays crossing 32/64 slots, strings "
-        "across the inline threshold and >= 200 bytes, parse texts that allocate at every site, deep copies, pointer sets, patches) + "
+        "across the inline threshold and >= 200 bytes, parse texts that allocate at every site, deep copies, pointer sets, patches; containers "
+        "whose capacity was left by an earlier fault-free history — parsed, shrunk to fit, shrunk with slack, grown, deep-copied — then each "
+        "modifying route (put/insert/add, pointer set, in-place patch) at first / last / one-past / far index) + "
         "PRNG-generated trees/texts; every allocation index k of the test part is failed in turn (thorough: + sampled double faults); "
         "a case is non-trivial when N > 0 and at least one k ends in a documented failure; distinct = distinct script line among those")
 TRUSTED = ["Coq 8.16.1 kernel (coqc), no axioms (Print Assumptions: closed under the global context)",
